@@ -2,6 +2,7 @@ package fam
 
 import (
 	"bytes"
+	"os"
 	"encoding/json"
 	"fmt"
 	"math/rand"
@@ -67,7 +68,10 @@ func (Forgery) Cap(tier string) int {
 	if tier == "quick" {
 		return 6000
 	}
-	return 0
+	if os.Getenv("VERIF_PROP") == "C01" {
+		return 0 // the whole enumerated space for the property this family was built for
+	}
+	return 60000
 }
 func (Forgery) Layouts(tier string) int { return 1 }
 
